@@ -59,8 +59,12 @@ PROPS = {
                       "expansion of one alternative of I split at the commas of I's own depth, empty alternatives included, then an expansion "
                       "of C); theorem_expansion_shape: the expansion of a balanced pattern is non-empty and its strings contain no braces. The "
                       "proof replaces an innermost group anywhere in a pattern by its alternatives (lemma_ctx, induction on the context) and "
-                      "so is independent of the order in which groups are substituted. Bounded (thorough tier): the formal definition is "
-                      "cross-checked against an operational left-to-right csh expander for all patterns up to length 10.",
+                      "so is independent of the order in which groups are substituted. theorem_csh: on balanced patterns the denotation equals the "
+                      "OPERATIONAL reading of csh expansion - substitute one alternative of the first group (first '{', its depth-matching '}', "
+                      "alternatives split at commas of the group's own depth), expand the result further (csh_has) - via a product lemma "
+                      "(dhas(x + c) = dhas(x) . dhas(c) for balanced x) over a depth-profile characterisation of scan/seek; theorem_c04_csh states "
+                      "the property in that reading. Nothing about the expansion is bounded any more; the thorough tier still runs the real matcher "
+                      "against an executable transcription of the operational expander for all patterns up to length 10 (a check of the trusted base).",
         "level_note": VERUS_TRUST + "shims: rfind/find(char), split(','), format!(\"{}{}{}\"), contains(char), split_at (vstd); glob crate as "
                       "uninterpreted glob_ok/glob_match; contracts of Dewey::new/matches imported from unit dewey (verified in the same run).",
     },
